@@ -212,6 +212,21 @@ C18d (no scheduling point inside a processor's Execute: the instrumenter now put
 front of every statement of the Execute methods under streams/processors, used by C18S in half
 of its runs together with probe traffic that differs in the filter outcome).
 
+Fifth wave (suffix e), 16 changes: 10 were caught as delivered (C01e, C03e, C04e, C06e, C09e,
+C10e, C11e, C15e, C19e, C20e), C18e by the C06 check, 5 were missed at first. What was changed:
+C12e (the Retry-After header always had the configured letter case: other cases added),
+C08e (the gateway always had files before the update: fresh-gateway payload classes added),
+C02e (the expiry-GC goroutine always ran between the harness's steps: it is a schedulable
+task at its tick instants now, operations interleave with a GC pass),
+C05e (request URLs were always parseable and at most one flow looked at the query string:
+malformed URLs, flow-level filters on both flows, a wildcard flow URL added),
+C17e (policy mode was driven at the RetryPlugin only: scenario C17D drives the real
+dispatcher with an early-answering remedy and re-sends a call while a retry is asked for).
+While seeding C05e the sub-agent noted two places where the unchanged tree already broke C05;
+both were reproduced by the C05 check after flow references and flow-level filters were added
+to its generator, and repaired (`83a1f6d` self-referencing flow: stack overflow in the loader;
+`3d2c6f6` status-code filter + early response: nil dereference).
+
 ### 12.1 Reverting the repairs
 
 `tools/revert_all_fixes.py` reverts every `fix:` commit, one at a time, in a scratch worktree
